@@ -1342,3 +1342,116 @@ def k16(ctx):
 
 
 RULES.append(k16)
+
+
+def _indexed_places(b):
+    """every `base[i]` place of a body (statements and terminators, cleanup excluded): [(bb, role of base, role of i)]"""
+    out = []
+
+    def walk(x, bi):
+        if isinstance(x, dict):
+            if "l" in x and "p" in x and isinstance(x["p"], list):
+                for k_, p in enumerate(x["p"]):
+                    if isinstance(p, dict) and "idx" in p:
+                        out.append((bi, b.role_of_place({"l": x["l"], "p": x["p"][:k_]}), b.role_of_local(int(p["idx"]))))
+            for v in x.values():
+                walk(v, bi)
+        elif isinstance(x, list):
+            for v in x:
+                walk(v, bi)
+    for bi, blk in enumerate(b.blocks):
+        if not blk["cleanup"]:
+            walk(blk["stmts"], bi)
+            walk(blk["term"], bi)
+    return out
+
+
+@rule("K17", cfgs=EXPL, doc="the per-child proofs of a node stay attached to their children: chain_pn_map hands f the i-th child invocation together with the i-th child proof and the position i, and writes f's answer back to the same position of both lists, for every child; the reflexive node proves child i by reflexivity of child i's class over its syntactic slots, in occurrence order")
+def k17(ctx):
+    crate = ctx.lib()
+    bs = [b for b in crate.by_name.get("chain_pn_map", []) if b.kind != "Closure"]
+    if len(bs) != 1:
+        raise mir.AnchorMissing("EGraph::chain_pn_map")
+    b = mir.inline_view(crate, bs[0])
+    w = where_of(b)
+    fcalls = [c for c in b.calls if not b.blocks[c.bb]["cleanup"] and c.callee and c.callee.name in ("call", "call_mut", "call_once") and _nrm(b, b.role_of_operand(c.args[0])) == "p3"]
+    if len(fcalls) != 1:
+        raise mir.AnchorMissing("the call of the step function in chain_pn_map", "found %d" % len(fcalls))
+    fc = fcalls[0]
+    targ = strip_role(b.role_of_operand(fc.args[1]))
+    comps = list(targ[2]) if isinstance(targ, tuple) and targ[0] == "agg" and len(targ[2]) == 2 else None
+    if comps is None:
+        raise mir.AnchorMissing("the (position, proven invocation) argument of the step function in chain_pn_map", role_str(targ)[:120])
+    pos = _nrm(b, comps[0])
+    pai = strip_role(comps[1])
+    el = pr = "?"
+    if isinstance(pai, tuple) and pai[0] == "agg" and len(pai[2]) == 2:
+        names = list(pai[3]) if len(pai) > 3 and pai[3] else ["elem", "proof"]
+        d = dict(zip(names, pai[2]))
+        el, pr = _nrm(b, d.get("elem", pai[2][0])), _nrm(b, d.get("proof", pai[2][1]))
+    occ = "applied_id_occurrences_mut(p2.elem)"
+    idx = _indexed_places(b)
+    # index form: `for i in 0..n { app_ids[i] .. proofs[i] .. f(i, ..) }`
+    ia = {_nrm(b, b.role_of_operand(c.args[1])) for c in b.calls if not b.blocks[c.bb]["cleanup"] and c.callee and c.callee.name in ("index_mut", "index", "get_mut", "get")
+          and occ in _nrm(b, b.role_of_operand(c.args[0]))}
+    ia |= {_nrm(b, i) for (_, base, i) in idx if occ in _nrm(b, base)}
+    ip = {_nrm(b, i) for (_, base, i) in idx if ".proofs" in _nrm(b, base)}
+    ip |= {_nrm(b, b.role_of_operand(c.args[1])) for c in b.calls if not b.blocks[c.bb]["cleanup"] and c.callee and c.callee.name in ("index_mut", "index", "get_mut", "get")
+           and ".proofs" in _nrm(b, b.role_of_operand(c.args[0]))}
+    if ia or ip:
+        ctx.check(len(ia) == 1 and ia == ip and ia == {pos}, "same-position", "child invocation, child proof and the position handed to f are all taken at the loop's own index",
+                  "chain_pn_map reads the child invocation at %s, the child proof at %s and tells f position %s: the three must be one and the same index, or child i travels with the proof of another child" % (sorted(ia), sorted(ip), pos), w)
+        ctx.check(occ in el and ".proofs" in pr, "step-gets-child-and-its-proof", "f is handed (child invocation, its proof)", "f is handed elem=%s proof=%s" % (el[:80], pr[:80]), w)
+    else:
+        # zipped form: for (i, (a, p)) in occurrences.iter_mut().zip(proofs.iter_mut()).enumerate()
+        ok = "zip(" in el and "zip(" in pr and occ in el and ".proofs" in pr and "enumerate(" in pos and el.split(" as ")[0] == pr.split(" as ")[0]
+        ctx.check(ok, "same-position", "child invocation and child proof are walked in lockstep, the position comes from the same traversal",
+                  "chain_pn_map: could not establish that child i (%s), its proof (%s) and the position (%s) belong together" % (el[:100], pr[:100], pos[:60]), w)
+    # write-back of both components, on every iteration
+    loops = [l for l in C.iterator_loops(b) if fc.bb in C.loop_body(b, l)]
+    if len(loops) != 1:
+        raise mir.AnchorMissing("the loop over the children in chain_pn_map", "found %d" % len(loops))
+    l = loops[0]
+    ctx.check(C.loop_exhaustive(b, l), "every-child", "the loop visits every child", "the loop of chain_pn_map can be left before every child was mapped", where_of(b, l[0]))
+    it = _nrm(b, l[1])
+    rng = strip_role(l[1])
+    while isinstance(rng, tuple) and rng[0] == "call" and rng[1] in ("into_iter", "iter", "by_ref") and rng[3]:
+        rng = strip_role(rng[3][0])
+    if isinstance(rng, tuple) and rng[0] == "agg" and str(rng[1]).endswith("Range") and len(rng[2]) == 2:
+        lo, hi = strip_role(rng[2][0]), _nrm(b, rng[2][1])
+        okb = isinstance(lo, tuple) and lo[0] == "const" and str(lo[1]).split("_")[0] == "0" and hi == "len(%s)" % occ
+    else:
+        okb = "zip(" in it and occ in it and ".proofs" in it and "Range" not in it and "take(" not in it and "skip(" not in it
+    ctx.check(okb, "bound-is-child-count", "the loop runs over all children (0..len(children) or the children themselves)", "the loop of chain_pn_map ranges over %s" % it[:120], where_of(b, l[0]))
+    stores = {}
+    for bi, si, s in b.statements():
+        if s["k"] == "assign" and not b.blocks[bi]["cleanup"] and "*" in s["lhs"]["p"] and bi in C.loop_body(b, l):
+            v = strip_role(b.role_of_rvalue(s["rv"]))
+            if isinstance(v, tuple) and v[0] == "field" and strip_role(v[1])[0] == "call" and strip_role(v[1])[4] == fc.bb if isinstance(strip_role(v[1]), tuple) and len(strip_role(v[1])) > 4 else False:
+                dst = _nrm(b, b.role_of_local(s["lhs"]["l"]))
+                stores[v[2]] = (bi, dst)
+    for comp, marker in (("elem", occ), ("proof", ".proofs")):
+        st = stores.get(comp)
+        okw = st is not None and marker in st[1] and b.must_pass([fc.bb], [l[0]], {st[0]})
+        ctx.check(okw, "written-back:" + comp, "f's %s is written over the child's own %s on every iteration" % (comp, comp),
+                  "f's answer .%s is %s" % (comp, "stored into %s" % st[1][:100] if st else "not written back on every path"), w)
+
+    # the reflexive node
+    rp = [x for x in crate.by_name.get("refl_proof", []) if x.kind != "Closure"]
+    rn = [x for x in crate.by_name.get("refl_pn", []) if x.kind != "Closure"]
+    if len(rn) != 1:
+        raise mir.AnchorMissing("EGraph::refl_pn")
+    vb = mir.inline_view(crate, rn[0])
+    vals = [_nrm(sb_, sb_.role_of_local(0)) for sb_ in vb.all_bodies() if sb_ is not vb]
+    if rp:
+        vals += [_nrm(rp[0], rp[0].role_of_local(0))]
+    want = "prove_reflexivity(self, new(p1, identity(syn_slots(self, p1))))"
+    got = [v for v in vals if "prove_reflexivity" in v]
+    ctx.check(len(got) == 1 and got[0].replace("p2", "p1").replace("p1.id", "p1") == want, "refl-child-proof", "a child is proved reflexively as id[identity over its syntactic slots]",
+              "the reflexive child proof is %s; it must be %s" % (got[:1], want), where_of(rp[0] if rp else vb))
+    ret = _nrm(vb, vb.role_of_local(0))
+    ctx.check("p2" in ret and "applied_id_occurrences(p2)" in ret.replace("iter(", "(").replace("into_iter(", "("), "refl-children-in-order", "the reflexive node carries one proof per child of the node handed in, in occurrence order",
+              "refl_pn builds %s" % ret[:200], where_of(vb))
+
+
+RULES.append(k17)
